@@ -62,9 +62,11 @@ package directive
 //@ extern strings.HasPrefix(s, prefix)
 //@   attr pure deterministic nopanic
 //@   ensures result == prefixof(prefix, s)
+// Path only reads: the parameter map of a directive is shared by every copy PASTE makes of it (CopyWoParentAndChildren is
+// shallow), so writing it while resolving one copy changes what the other copies resolve to (C10)
 //@ func (Directive).Path(d)
-//@   property C01
-//@   modifies nothing
+//@   property C01,C10
+//@   modifies[C01,C10,@parameters-untouched] nothing
 
 // Two directives are the same occurrence iff they were scanned from the same file OBJECT at the same offset: every INCLUDE
 // reads its file anew, so the same piece included twice yields different occurrences (C09: a piece may be included in
